@@ -190,8 +190,9 @@ CLAIMS = {'C01': {'note': 'Not decided (SQL): the upsert input=input+excluded.in
                  'and any data (F24: a JSON null payload, fixed), and an accepted bulk element has one of the four actions, spelled exactly, with the payload type processElement asserts. Import '
                  '(round 8): Store.InsertLog requires, for a log that arrives with its id, volumes that cover its postings (what Transaction.MarshalJSON dereferences); importLog is verified to '
                  'establish it (F25: client-supplied volumes crashed the import goroutine). Cursors (round 8): the paginator constructors require a page size that cannot wrap and, for column '
-                 'cursors, a date or numeric column; Paginate is verified to establish both for queries decoded from client cursors (F26). Date filters: TypeDate.ValidateValue accepts exactly '
-                 'strings that parse, and NormalizeDateFilterValue then returns no (unwrapped, 500) error.'}}
+                 'cursors, a date or numeric column; Paginate is verified to establish both for queries decoded from client cursors (F26). Error classes (round 8): every error a ResolveFilter '
+                 'handler returns is storage/common.ErrInvalidQuery or ErrMissingFeature, the classes the API maps to 400 (F27: a second ErrInvalidQuery type and plain errors were answered with '
+                 '500). Date filters: TypeDate.ValidateValue accepts exactly strings that parse, and NormalizeDateFilterValue then returns no (unwrapped, 500) error.'}}
 NA = {'C04': 'Effective volumes are computed by the PL/pgSQL triggers set_effective_volumes / update_effective_volumes; no Go function computes them, so no contract on the Go code can state or decide the '
         'property.',
  'C05': 'Point-in-time / window reads are SQL text (first_value ... over, date predicates); a contract can say which string was built, not what Postgres returns for it.',
